@@ -203,7 +203,7 @@ def check(pid, tier, replay=None):
             cstats, cviol = fc.result()
         violations = violations + cviol
         extra = dict(channel=dict(model_checking=cstats["mc"], behaviours=cstats["behaviours"], events=cstats["events"],
-                                  drift_steps=cstats["drift"], settle=cstats["settle"]))
+                                  drift_steps=cstats["drift"], settle=cstats["settle"], timed=cstats.get("timed", {})))
         stats["events"] += cstats["events"]
         stats["trace_states"] += cstats["trace_states"]
         for k, v in cstats["mc"].items():
